@@ -493,8 +493,7 @@ def rule_plausible_stack(ctx, R="C06/plausible-stack"):
         ctx.floor(R, "may_be_stack calls in get_stack_info", len(uses), 1)
 
 
-def rule_who_is_shortened(ctx):
-    R = "C06/who-is-shortened"
+def rule_who_is_shortened(ctx, R="C06/who-is-shortened"):
     b = ctx.body(R, TLW)
     if b is None:
         return
@@ -517,6 +516,11 @@ def rule_who_is_shortened(ctx):
         # alternatives: Len(c) / None ; Len must be 2048 and selected only under limit.is_some() && idx >= 20 && estimate > limit
         lens = [x for x in alts(capv) if x[0] == "agg" and x[2] == "Len"]
         ctx.check(bool(lens) and all(core(dict(x[3])["0"]) == ("const", 2048, "usize") for x in lens), R, "cap-constant", b.where(bi), "the extra-thread cap is 2048 bytes", "cap value(s): %s" % [show(x) for x in lens])
+        # the shortened copy starts a whole number of caps above the page base: only a cap that is a multiple of the word size keeps the copy
+        # word-aligned with the target's stack (the sanitiser and the pointer scan find words relative to the copy)
+        vals = [core(dict(x[3])["0"]) for x in lens]
+        ctx.check(bool(vals) and all(is_const(v) and isinstance(v[1], int) and v[1] > 0 and v[1] % 8 == 0 for v in vals), R, "cap-word-multiple", b.where(bi),
+                  "the cap is a multiple of the 8-byte word", "the cap %s is not a multiple of 8: a shortened stack copy starts in the middle of a word, and every word the sanitiser or the reference scan looks at straddles two real stack slots" % [show(v) for v in vals])
         # selection predicate: find the operand local of arg 7 and the condition under which it is assigned from extra_thread_stack_len
         op = t["args"][6]
         defs = o._reaching(op["p"]["l"], (), (bi, "term")) if op["k"] in ("copy", "move") else []
